@@ -1,7 +1,7 @@
 #!/bin/bash
 # Run the pinned baseline packages with the verif guard OFF (no -tags verif, no stub libflux) and compare
 # with /root/.vp/BASELINE.json's stable_pass list. (MANIFEST.hooks.baseline_off_cmd is the full command.)
-cd /repo || exit 2
+cd "${1:-/repo}" || exit 2
 python3 - > /tmp/basepk.txt <<'PY'
 import json
 b=json.load(open('/root/.vp/BASELINE.json'))
